@@ -850,6 +850,52 @@ impl MonDir {
     pub fn read_after_gc_events(&self) -> Vec<String> {
         self.lock().read_after_gc.clone()
     }
+
+    /// Segment ids a merge thread has started writing (`<id>.store` created by role merge) and
+    /// not finished (the same file terminated) or abandoned (a failed operation on one of the
+    /// segment's files). A merge thread of a writer that was rolled back / dropped keeps
+    /// running; nothing in the API waits for it, so quiescence has to be observed here.
+    pub fn merges_in_flight(&self) -> Vec<String> {
+        let st = self.lock();
+        let mut open: BTreeSet<String> = BTreeSet::new();
+        for e in st.log.iter() {
+            let Some((id, ext)) = e.path.split_once('.') else { continue };
+            if id.len() != 32 {
+                continue;
+            }
+            if e.kind == OpKind::OpenWrite && e.role == "merge" && ext == "store" && e.ok {
+                open.insert(id.to_string());
+            } else if open.contains(id) && (!e.ok || (e.kind == OpKind::Terminate && ext == "store")) {
+                open.remove(id);
+            }
+        }
+        open.into_iter().collect()
+    }
+
+    /// ids of segments whose files were created by a merge thread
+    pub fn segment_ids_created_by_merge(&self) -> BTreeSet<String> {
+        let st = self.lock();
+        st.log
+            .iter()
+            .filter(|e| e.kind == OpKind::OpenWrite && e.role == "merge")
+            .filter_map(|e| e.path.split_once('.').map(|(id, _)| id.to_string()))
+            .filter(|id| id.len() == 32)
+            .collect()
+    }
+
+    /// waits (bounded) until no merge is in flight; false = timed out
+    pub fn wait_no_merge_in_flight(&self, max: std::time::Duration) -> bool {
+        let t0 = std::time::Instant::now();
+        loop {
+            if self.merges_in_flight().is_empty() {
+                return true;
+            }
+            if t0.elapsed() > max {
+                return false;
+            }
+            std::thread::sleep(std::time::Duration::from_millis(1));
+        }
+    }
 }
 
 /// `Arc<Vec<u8>>` as a stable-deref byte container
